@@ -34,6 +34,11 @@ def run(res, args):
         rep, info = O.replay_ceval(d)
         return rep, info, {'site': 'eval_binary_arith_expression dispatch', 'probe': info['failed_probes'][0]['expression'] if info['failed_probes'] else None}
     O.merge(res, O.ceval_divrem(fns, consts), res.coverage, replay, 'ceval')
+
+    def replay_lit(ob, d):
+        rep, info = O.replay_literals(d)
+        return rep, info, {'site': 'number literal decoding', 'probe': info['failed_probes'][0]['literal'] if info['failed_probes'] else None}
+    O.merge(res, O.c03_literals(fns, consts), res.coverage, replay_lit, 'literals')
     res.assumptions += [
         "escape decoding: a '+' where the tokenizer only ever produces a hex digit is outside the oracle (std's from_str_radix accepts it; tree-sitter's escape_sequence token cannot contain it)",
         'ordering comparisons of two bool constants are outside the Kani oracle (CBMC orders 1-bit values as signed; caught by native replay in the design phase)',
